@@ -87,7 +87,7 @@ type Record struct {
 	Events   []Event  `json:"events"`
 	Ext      [][2]int `json:"ext"`
 	RootVals []Val    `json:"rootvals"`
-	Outcome  string   `json:"outcome"` // ok | panic | error | closeerr | reopen-strict | reopen-lib | extract
+	Outcome  string   `json:"outcome"` // ok | panic | diverges | error | closeerr | reopen-strict | reopen-lib | extract
 	Msg      string   `json:"msg"`
 	Views    []View   `json:"views"`
 
@@ -179,7 +179,7 @@ func Execute(job *Job) (*Record, error) {
 		return nil, fmt.Errorf("Put: %v", err)
 	}
 	rootsRef := w.Alloc()
-	copier := pdf.NewCopier(w, r)
+	copier := pdf.NewCopier(w, &watchGetter{r: r, limit: 5000 + 500*len(src.Graph)})
 
 	var results []callResult
 	stop := map[int]bool{}
@@ -266,6 +266,7 @@ func Execute(job *Job) (*Record, error) {
 		}
 		rec.Views = append(rec.Views, *view)
 	}
+	rec.src, rec.dst = nil, nil // the files are not needed any more
 	return rec, nil
 }
 
@@ -284,6 +285,28 @@ func renumber(v Val, ren func(int) int) Val {
 	return v
 }
 
+// watchGetter is the source handed to the copier: go-pdf's Reader plus a
+// bound on the number of objects fetched.  A copier that does not terminate
+// (e.g. on a cyclic graph) would otherwise end in a stack overflow, which Go
+// cannot recover from; the bound turns it into an ordinary panic.
+type watchGetter struct {
+	r     *pdf.Reader
+	n     int
+	limit int
+}
+
+const watchdogMsg = "C11 watchdog: the copier keeps fetching source objects"
+
+func (g *watchGetter) GetMeta() *pdf.MetaInfo { return g.r.GetMeta() }
+
+func (g *watchGetter) Get(ref pdf.Reference, canObjStm bool) (pdf.Native, error) {
+	g.n++
+	if g.n > g.limit {
+		panic(watchdogMsg)
+	}
+	return g.r.Get(ref, canObjStm)
+}
+
 func pdfRef(n int) pdf.Reference { return pdf.NewReference(uint32(n%genBase), uint16(n/genBase)) }
 
 // doCall performs one top-level call and recovers a panic of the library.
@@ -292,6 +315,9 @@ func doCall(copier *pdf.Copier, w *pdf.Writer, r *pdf.Reader, c Call, arg Val, r
 		if p := recover(); p != nil {
 			outcome, msg = "panic", fmt.Sprint(p)
 			where = topLibraryFrame(string(debug.Stack()))
+			if msg == watchdogMsg {
+				outcome, where = "diverges", ""
+			}
 		}
 	}()
 	ev = Event{Op: c.Op}
